@@ -17,7 +17,9 @@ SPEC = dict(id="C20", kind="pure", binary="c20", gen="c20", corr="C20", n_quick=
         "authorisation is enabled (APP_DISABLE_AUTH=false); USERID_HEADER/USERID_PREFIX/KATIB_CORE_NAMESPACE have their defaults (the translator reads the defaults of env.GetEnvOrDefault variables)",
         "API-server assumption built into the semantics: a namespaced read in namespace n != \"\" returns objects of n only; an allowing review for namespace \"\" covers every namespace (Kubernetes SAR semantics)",
         "the answers of the API server and DB manager, the outcome of data-dependent branches/loops, the failure of library calls (encoding/json, w.Write, config.GetConfig, strconv) and the result of strings.Replace on the header are universally quantified inputs of the model; the harness supplies the observed ones",
-        "the property is checked per namespace (an allowing review for the namespace by the header's user precedes every access); whether verb/resource of the review match the access kind is recorded in the skeletons but not demanded",
+        "reads are checked per namespace (an allowing review covering the namespace, by the header's user, precedes every access; its verb/resource need not be that of the read: handlers read related objects after one review); "
+        "WRITES (create/update/delete) additionally need an allowing review with exactly the verb and the plural resource of the write (safe clause 5, checker, monitor)",
+        "RBAC oracles of the harness: deny all, every verb in namespace 'mine', allow all, read-only member of 'mine' (get/list/watch only); the theorems quantify over every oracle function",
         "cluster-scoped data (the Namespace list served by fetch_namespaces and used by the template views) is outside 'namespaced data' and is not subject to the check",
         "FetchTrialLogs beyond config.GetConfig (pod list, pod log stream through the clientset) is covered by the translated skeleton and the checker only; the harness has no kubeconfig, so that part is not validated dynamically",
         "routes with an OPEN known finding are excluded from the C20_routes obligation (list copied into Gen/Routes.v); they are still exercised and monitored",
